@@ -5,6 +5,8 @@ fn engine(id: &str, tier: &str, replay: Option<&serde_json::Value>) -> Option<gv
     Some(match (id, replay) {
         ("C01", None) => c01::run(tier),
         ("C01", Some(v)) => c01::replay(v),
+        ("C02", None) => c02::run(tier),
+        ("C02", Some(v)) => c02::replay(v),
         ("C04", None) => c04::run(tier),
         ("C04", Some(v)) => c04::replay(v),
         _ => return None,
